@@ -12,6 +12,17 @@ class TooManyPaths(Exception):
     pass
 
 
+def _strip(k):
+    """place key without derefs (references are transparent for overlap purposes)"""
+    return tuple(x for x in k if x != "*")
+
+
+def _overlap(k1, k2):
+    a, b = _strip(k1), _strip(k2)
+    n = min(len(a), len(b))
+    return a[:n] == b[:n]
+
+
 class Path:
     """A sequence of basic blocks b0 -> b1 -> ... along normal edges of `body`."""
 
@@ -53,8 +64,9 @@ class Path:
         return None
 
     def _find_store(self, place, pos, sidx):
-        """Last assignment to exactly this place (with projections) before (pos, sidx); gives up
-        (returns 'clobber') when a call or a store through an overlapping path intervenes."""
+        """Last assignment to exactly this place (with projections) before (pos, sidx); returns
+        'clobber' when a call that received a *mutable* borrow overlapping this place, or a store
+        through an overlapping path, intervenes (the value is then unknown)."""
         body = self.body
         key = place_key(place)
         base = place["l"]
@@ -68,11 +80,15 @@ class Path:
                 if t["k"] == "call":
                     if place_key(t["dest"]) == key:
                         return ("t", p)
-                    # a call that receives a (re)borrow rooted at the same base may write it
                     for a in t["args"]:
                         pl = op_place(a)
-                        if pl is not None and self._rooted_at(pl, p, len(stmts), base):
-                            return "clobber"
+                        if pl is None:
+                            continue
+                        r = self._borrow_of(pl, p, len(stmts), base)
+                        if r is not None:
+                            mut, bkey = r
+                            if mut and _overlap(bkey, key) and self._callee_may_write(t, a, bkey, key):
+                                return "clobber"
                 upto = len(stmts)
             for i in range(min(upto, len(stmts)) - 1, -1, -1):
                 s = stmts[i]
@@ -80,7 +96,9 @@ class Path:
                     k2 = place_key(s["lhs"])
                     if k2 == key:
                         return ("s", p, i)
-                    if k2[0] == base and (k2[:len(key)] == key or key[:len(k2)] == k2) and len(k2) > 1:
+                    if k2[0] == base and 1 < len(k2) < len(key) and key[:len(k2)] == k2:
+                        return ("sp", p, i, len(k2) - 1)   # store to a prefix: project the stored value
+                    if k2[0] == base and len(k2) > 1 and _overlap(k2, key):
                         return "clobber"
                     if not s["lhs"]["p"] and s["lhs"]["l"] == base:
                         return None  # base re-defined: earlier stores are irrelevant
@@ -88,24 +106,79 @@ class Path:
             upto = None
         return None
 
-    def _rooted_at(self, pl, pos, sidx, base, depth=0):
-        """Is place pl (a temp holding a reference) derived from a borrow of `base`?"""
-        if depth > 8:
+    def _callee_may_write(self, t, arg, bkey, key):
+        """A local callee handed `&mut *base` writes the read place only if its field-write summary
+        says so; anything else (foreign callee, partial borrow) is assumed to write."""
+        if len(_strip(bkey)) > 1:
+            return True   # a borrow of a sub-place that overlaps: assume written
+        f = t["func"]
+        if "indirect" in f or (f.get("trait") and not f.get("rpath")):
             return True
+        callee = cname(f)
+        prog = self.body.prog
+        if callee not in prog.bodies:
+            return True
+        ai = t["args"].index(arg)
+        wf = prog.writes_fields(callee, ai + 1)
+        if wf is None:
+            return True
+        fields = [x for x in _strip(key)[1:] if isinstance(x, tuple) and x[0] == "f"]
+        if not fields:
+            return True
+        first = fields[0]
+        name = str(first[2]) if first[2] is not None else str(first[1])
+        return name in wf
+
+    def version_of(self, place_keyish, pos):
+        """Index (block position, statement) of the last potential write to the place before the
+        end of block position pos; used to tell whether two loads see the same value."""
+        fake = {"l": place_keyish[0], "p": ["deref"] + [{"f": 0, "n": n} for n in place_keyish[1:]]}
+        # reuse _find_store's scan: emulate by walking and recording where it stops
+        st = self._find_store(fake, pos, None)
+        if st is None:
+            return -1
+        if st == "clobber":
+            return ("c", self._last_clobber_pos(fake, pos))
+        return (st[0], st[1], st[2] if len(st) > 2 else None)
+
+    def _last_clobber_pos(self, place, pos):
+        # binary-search-free: shorten the path until the clobber disappears
+        for q in range(pos, -1, -1):
+            if self._find_store(place, q, 0 if q < pos else None) != "clobber":
+                return q
+        return 0
+
+    def _borrow_of(self, pl, pos, sidx, base, depth=0):
+        """If place pl (a temporary) holds a reference derived from a borrow of a place rooted at
+        `base`, return (is_mutable, place_key of the borrowed place); else None."""
+        if depth > 10:
+            return (True, (base,))
         if pl["l"] == base:
-            return True
+            # the base itself passed by value/reference: treat as a mutable use of the whole thing only when it is a &mut local
+            ty = self.body.local_ty(base)
+            return (ty.startswith("&mut") or ty.startswith("&'") and " mut " in ty.split(" ")[0:2].__repr__(), place_key(pl)) if pl["p"] or ty.startswith("&") else None
         d = self._find_def(pl["l"], pos, sidx)
         if d is None or d[0] != "s":
-            return False
+            return None
         s = self.body.blocks[self.blocks[d[1]]]["stmts"][d[2]]
         rv = s["rv"]
         if rv["k"] in ("ref", "rawptr"):
-            return self._rooted_at(rv["place"], d[1], d[2], base, depth + 1)
+            src = rv["place"]
+            mut = rv.get("mut", True)
+            if src["l"] == base:
+                return (mut, place_key(src))
+            r = self._borrow_of(src, d[1], d[2], base, depth + 1)
+            if r is not None:
+                return (mut and r[0], r[1])
+            return None
         if rv["k"] == "use":
             q = op_place(rv["op"])
             if q is not None:
-                return self._rooted_at(q, d[1], d[2], base, depth + 1)
-        return False
+                if q["l"] == base:
+                    # copy of a reference stored inside base (e.g. `_55 = (*_25).writer`): writes through it do not alias base's own fields
+                    return None
+                return self._borrow_of(q, d[1], d[2], base, depth + 1)
+        return None
 
     # ---- origin terms, path-precise -----------------------------------------------------
     def origin_op(self, op, pos, sidx=None, depth=0):
@@ -114,19 +187,28 @@ class Path:
             return ("const", _freeze_const(c))
         return self.origin_place(op_place(op), pos, sidx, depth)
 
-    def origin_place(self, place, pos, sidx=None, depth=0):
+    def origin_place(self, place, pos, sidx=None, depth=0, address=False):
+        """Value loaded from `place` at this point; with address=True the *place itself* (used for
+        `&place`): projections over the base local's value, without consulting memory."""
         if sidx is None:
             sidx = len(self.body.blocks[self.blocks[pos]]["stmts"])
         if depth > 200:
             return ("unknown", "depth")
         # memory-like places (through deref or field of a local that is stored to piecewise):
-        if place["p"]:
+        if place["p"] and not address:
             st = self._find_store(place, pos, sidx)
+            if isinstance(st, tuple) and st[0] == "sp":
+                t = self._value_of_def(("s", st[1], st[2]), depth + 1)
+                return fold(self._project(t, place["p"][st[3]:], pos, sidx, depth))
             if isinstance(st, tuple):
                 return self._value_of_def(st, depth + 1)
-            # prefix stores: try progressively shorter prefixes is not needed for our rules
+            if st == "clobber":
+                return ("unknown", "clobbered:" + ".".join(str(x[2] if isinstance(x, tuple) and len(x) > 2 else x) for x in place_key(place)))
         t = self.origin_local(place["l"], pos, sidx, depth + 1)
-        for e in place["p"]:
+        return fold(self._project(t, place["p"], pos, sidx, depth))
+
+    def _project(self, t, projs, pos, sidx, depth):
+        for e in projs:
             if e == "deref":
                 continue
             if e == "other":
@@ -142,7 +224,7 @@ class Path:
             elif "sub" in e:
                 t = ("subslice", t, e["sub"][0], e["sub"][1], e["from_end"])
             t = _simplify(t)
-        return fold(t)
+        return t
 
     def origin_local(self, local, pos, sidx, depth=0):
         ck = (local, pos, sidx)
@@ -172,7 +254,7 @@ class Path:
         if k == "use":
             return self.origin_op(rv["op"], pos, sidx, depth)
         if k in ("ref", "rawptr"):
-            return self.origin_place(rv["place"], pos, sidx, depth)
+            return self.origin_place(rv["place"], pos, sidx, depth, address=True)
         if k == "cast":
             inner = self.origin_op(rv["op"], pos, sidx, depth)
             if rv["ck"].startswith("PointerCoercion") or rv["ck"] in ("PtrToPtr", "Subtype"):
@@ -228,7 +310,7 @@ PURE = _re.compile(
     r"bitflags.*::contains|::contains)$")
 
 
-def memo_key(body, blocks, t, depth=0):
+def memo_key(body, blocks, t, depth=0, path=None):
     """Canonical identity of a term that denotes the same dynamic value wherever it is
     re-evaluated on this path, or None when that cannot be established (memory loads, call
     sites visited twice)."""
@@ -242,9 +324,19 @@ def memo_key(body, blocks, t, depth=0):
         if ty.startswith("&") or ty.startswith("*"):
             return None
         return ("param", t[1])
+    if k == "field" and isinstance(t[1], tuple) and t[1][0] == "param" and path is not None:
+        # a load of a first-level field through a reference parameter: same value as long as nothing
+        # on the path may have written it in between (versioned by the last potential write)
+        ty = body.local_ty(t[1][1])
+        if ty.startswith("&"):
+            try:
+                ver = path.version_of((t[1][1], t[2]), len(blocks) - 1)
+            except Exception:
+                return None
+            return ("load", t[1][1], str(t[2]), ver)
     if k == "call":
         if PURE.search(t[1]):
-            ks = tuple(memo_key(body, blocks, a, depth + 1) for a in t[2])
+            ks = tuple(memo_key(body, blocks, a, depth + 1, path) for a in t[2])
             if any(x is None for x in ks):
                 return None
             return ("pure", t[1], ks)
@@ -253,22 +345,22 @@ def memo_key(body, blocks, t, depth=0):
             return None
         return ("site", t[1], site)
     if k in ("field", "variant"):
-        c = memo_key(body, blocks, t[1], depth + 1)
+        c = memo_key(body, blocks, t[1], depth + 1, path)
         return None if c is None else (k, c, t[2])
     if k in ("okpayload", "somepayload", "errpayload", "errresidual", "discr"):
-        c = memo_key(body, blocks, t[1], depth + 1)
+        c = memo_key(body, blocks, t[1], depth + 1, path)
         return None if c is None else (k, c)
     if k == "cast":
-        c = memo_key(body, blocks, t[1], depth + 1)
+        c = memo_key(body, blocks, t[1], depth + 1, path)
         return None if c is None else (k, c, t[2])
     if k == "bin":
-        a, b = memo_key(body, blocks, t[2], depth + 1), memo_key(body, blocks, t[3], depth + 1)
+        a, b = memo_key(body, blocks, t[2], depth + 1, path), memo_key(body, blocks, t[3], depth + 1, path)
         return None if a is None or b is None else (k, t[1], a, b)
     if k == "un":
-        a = memo_key(body, blocks, t[2], depth + 1)
+        a = memo_key(body, blocks, t[2], depth + 1, path)
         return None if a is None else (k, t[1], a)
     if k == "index":
-        a, b = memo_key(body, blocks, t[1], depth + 1), memo_key(body, blocks, t[2], depth + 1)
+        a, b = memo_key(body, blocks, t[1], depth + 1, path), memo_key(body, blocks, t[2], depth + 1, path)
         return None if a is None or b is None else (k, a, b)
     return None
 
@@ -326,7 +418,7 @@ def enumerate_paths(body, start=0, stop_at=(), max_visits=2, limit=50000, prune=
                         break
                 succs = [tgt] if not body.is_cleanup(tgt) else []
             else:
-                mk = memo_key(body, blocks, v)
+                mk = memo_key(body, blocks, v, 0, p)
                 if mk is not None:
                     for (k0, d0) in decisions:
                         if k0 != mk:
